@@ -71,6 +71,7 @@ def o_split(inp):
     if state != "rel" and any(on >= off for (_, _, on, off, _) in notes_of(timed)):
         return [("~skip:zero-length-note-through-the-absolute-view", "")]      # D17's mechanism, not split's
     s = P.seq_in_state(rel, state)
+    held_before = rel_timed(P.content_of(s))       # what the source holds before the call, read through a copy
     if state == "rel":
         before_rel = [from_real(m) for m in s.rel._messages]
     try:
@@ -82,7 +83,7 @@ def o_split(inp):
         after_rel = [from_real(m) for m in s.rel._messages]
         if before_rel != after_rel or before_rel != rel:
             fails.append(("pure", "the source's relative view changed"))
-    elif rel_timed(P.content_of(s)) != (timed, dur):
+    elif rel_timed(P.content_of(s)) != held_before:
         fails.append(("pure", f"the source's content changed (split from wrapper state {state})"))
     prs = [[from_real(m) for m in p.rel._messages] for p in pieces]
     if len(prs) > len(caps) + 1:
